@@ -1,7 +1,7 @@
 (* C16 -- Exit status and error accounting follow the documented contract.  Property theorems only. *)
 From Coq Require Import List NArith.
 From FP Require Import Model.Base Model.Collector Model.ErrFilter Model.System Proofs.C05_proofs Proofs.C16_proofs.
-From FP Require Import Model.Rdh Model.Alpide Model.Scanner Model.Views Model.System Model.SystemView Proofs.C16_reportless.
+From FP Require Import Model.Rdh Model.Alpide Model.Scanner Model.Views Model.System Model.SystemView Proofs.C16_reportless Proofs.C16_run Model.CdpRunning Model.Args Proofs.C16_args.
 From FP Require Gen.Facts.
 Import ListNotations.
 Open Scope N_scope.
@@ -71,6 +71,42 @@ Theorem C16_reportless_abort_only_for_layer_7 : forall ff c m input p, run_repor
   exists q, In q (concat (so_batches (scan_impl (rc_scan c) input))) /\ 6 < layer_from_feeid (r_fee_id (c_rdh q)).
 Proof. exact rl_panic. Qed.
 
+(* ONE WHOLE `check` RUN, for EVERY input (well-framed or not, any mode / target / filter / option): whenever the run ends with a report,
+   (1) with an any-errors exit code N configured the exit status is N exactly when an error, a custom-check failure (they are counted)
+   or a fatal input error is held, and 0 exactly when none is; (2) without the option it is 0; (3) what is shown is `displayed` of the
+   final state (C16_total_equals_shown, C16_mute, C16_cap, C16_filter_selection say what that is), and the total in report and
+   statistics file counts exactly the stored messages *)
+Theorem C16_check_run_exit : forall ff c input s sh e n, run_check ff c input = R_done s sh e -> rc_exit c = Some n -> n <> 0 ->
+  (e = n <-> collected_trouble ff s) /\ (e = 0 <-> ~ collected_trouble ff s).
+Proof. exact check_exit_iff. Qed.
+Theorem C16_check_run_exit_without_option : forall ff c input s sh e, run_check ff c input = R_done s sh e -> rc_exit c = None -> e = 0.
+Proof. exact check_exit_without_option. Qed.
+Theorem C16_check_run_accounting : forall ff c input s sh e, run_check ff c input = R_done s sh e ->
+  sh = displayed {| d_mute := rc_mute c; d_cap := rc_cap c; d_filter := rc_filter c |} s /\
+  k_total s = N.of_nat (length (k_errors s) + length (k_custom s)) /\
+  (rc_mute c = false -> rc_cap c = 0 -> rc_filter c = None -> k_fatal s = None -> N.of_nat (length sh) = k_total s).
+Proof.
+  intros ff c input s sh e H. destruct (check_done_shape _ _ _ _ _ _ H) as (_ & -> & T & I). split; [reflexivity|]. split; [exact T|].
+  intros Hm Hc Hf Hk.
+  destruct (c16_total {| d_mute := rc_mute c; d_cap := rc_cap c; d_filter := rc_filter c |} s Hm Hc Hf I) as [D L]. rewrite D.
+  destruct (k_total s =? 0) eqn:Z; [apply N.eqb_eq in Z; rewrite Z; reflexivity|exact (L Hk)].
+Qed.
+
+(* INVALID OPTION COMBINATIONS.  Model/Args.v is Config::validate_args, the first thing a run does (before anything is read or written;
+   a rejected combination ends the process with status 1).  For EVERY combination of sub-command, target, trigger period, any-errors
+   exit code and input-statistics file: it is rejected exactly when it is invalid by the documented contract -- `check sanity` with the
+   stave target; a trigger period anywhere but `check all its-stave`; an any-errors exit code 0; a statistics file that does not exist,
+   has no extension, or an extension other than json / toml (the extension itself, not the last letters of the name).  The model is the
+   function the current source has: the fact is re-read from config/lib.rs on every run. *)
+Theorem C16_args_source_shape : Gen.Facts.args_validation_as_modelled = true.
+Proof. exact eq_refl. Qed.
+Theorem C16_invalid_combinations_rejected : forall a, validate_args a = false <-> invalid_combination a.
+Proof. exact c16_args. Qed.
+Example C16_args_nonvacuous :
+  validate_args {| a_check := Some (CK_all, T_stave); a_period := Some 198; a_exit := Some 3; a_istats := Some (SF_ext EXT_toml) |} = true /\
+  validate_args {| a_check := Some (CK_all, T_its); a_period := None; a_exit := None; a_istats := Some (SF_ext [110; 100; 106; 115; 111; 110]) |} = false.
+Proof. split; reflexivity. Qed.
+
 Print Assumptions C16_exit_table.
 Print Assumptions C16_fatal_is_reported.
 Print Assumptions C16_total_counts_messages.
@@ -83,3 +119,8 @@ Print Assumptions C16_code_match.
 Print Assumptions C16_reportless_exit.
 Print Assumptions C16_reportless_exit_without_option.
 Print Assumptions C16_reportless_abort_only_for_layer_7.
+Print Assumptions C16_check_run_exit.
+Print Assumptions C16_check_run_exit_without_option.
+Print Assumptions C16_check_run_accounting.
+Print Assumptions C16_args_source_shape.
+Print Assumptions C16_invalid_combinations_rejected.
